@@ -192,11 +192,17 @@ fn components(name: &str) -> Vec<&'static str> {
     found.into_iter().map(|(_, b)| b).collect()
 }
 
+/// Two failure kinds belong to the same oracle rule (the three `items-*` kinds are one rule: a wrong
+/// item sequence looks "missing" / "extra" / "differ" depending on what is stacked on top).
+fn same_rule(a: &str, b: &str) -> bool {
+    a == b || (a.starts_with("items-") && b.starts_with("items-"))
+}
+
 /// Does base family `base` show failure `kind` on its own (earlier in this run, or on a small probe
 /// space: all scripts of length <= 2 with <= 1 Pending, every parameter and inner placement)?
 fn base_fails(cat: &[Entry], base: &str, kind: &str) -> bool {
     let key = (base.to_string(), kind.to_string());
-    if SEEN.with(|s| s.borrow().contains(&key)) {
+    if SEEN.with(|s| s.borrow().iter().any(|(f, k)| f == base && same_rule(k, kind))) {
         return true;
     }
     if let Some(b) = BLAME.with(|b| b.borrow().get(&key).copied()) {
@@ -219,7 +225,7 @@ fn base_fails(cat: &[Entry], base: &str, kind: &str) -> bool {
                             continue;
                         }
                         let out = run_buffered(e, &c);
-                        if out.findings.iter().any(|f| f.sig.rsplit('|').next() == Some(kind)) {
+                        if out.findings.iter().any(|f| same_rule(f.sig.rsplit('|').next().unwrap_or(""), kind)) {
                             hit = true;
                             break 'outer;
                         }
@@ -406,7 +412,11 @@ fn run_c11(args: &Args) {
                 continue;
             }
             // each shard does about the work of the single quick shard: more shards => more cases
-            let n = (if cat[ei].composition { 1 } else { 3 }) * args.shard.1.max(1);
+            // compositions: every other one (alternating with the seed)
+            if cat[ei].composition && (ei + args.seed as usize) % 2 == 1 {
+                continue;
+            }
+            let n = (if cat[ei].composition { 1 } else { 2 }) * args.shard.1.max(1);
             for _ in 0..n {
                 random_case(&cat, ei, &mut rng, 4, &mut rep);
             }
